@@ -428,6 +428,50 @@ fn run_chain(seed: u64, ci: usize, thorough: bool) -> ChainOut {
                 break;
             }
         };
+        // ---- the verifiers force the match: tampered siblings must be rejected ------------
+        if rng.chance(1, 5) {
+            let kind = rng.below(6);
+            let cb = block.transactions()[0].clone();
+            let outs: Vec<CellOutput> = cb.outputs().into_iter().collect();
+            let bad: Option<(BlockView, &str)> = match kind {
+                0 | 1 if !outs.is_empty() => {
+                    let cap: u64 = outs[0].capacity().into();
+                    let ncap = if kind == 0 { cap + 1 } else { cap - 1 };
+                    let o = outs[0].clone().as_builder().capacity(Capacity::shannons(ncap)).build();
+                    let ncb = cb.as_advanced_builder().set_outputs(vec![o]).build();
+                    let mut txs = block.transactions();
+                    txs[0] = ncb;
+                    Some((block.as_advanced_builder().set_transactions(txs).build(), if kind == 0 { "cellbase one shannon above the reward" } else { "cellbase one shannon below the reward" }))
+                }
+                0 | 1 => {
+                    // no finalisation target yet / reward too small: a cellbase that creates capacity anyway
+                    let o = CellOutput::new_builder().capacity(Capacity::shannons(41 * SHANNONS_PER_BYTE as u64)).lock(lock.clone()).build();
+                    let ncb = cb.as_advanced_builder().output(o).output_data(Bytes::new()).build();
+                    let mut txs = block.transactions();
+                    txs[0] = ncb;
+                    Some((block.as_advanced_builder().set_transactions(txs).build(), "cellbase with an output although nothing is to be paid"))
+                }
+                _ => {
+                    let (ar, c, s_, u) = extract_dao_data(block.header().dao());
+                    let (c, s_, u) = (c.as_u64(), s_.as_u64(), u.as_u64());
+                    let (nar, nc, ns, nu, what) = match kind {
+                        2 => (ar + 1, c, s_, u, "DAO field with AR + 1"),
+                        3 => (ar, c + 1, s_, u, "DAO field with C + 1"),
+                        4 => (ar, c, s_ + 1, u, "DAO field with S + 1"),
+                        _ => (ar, c, s_, u.wrapping_sub(1), "DAO field with U - 1"),
+                    };
+                    let d = pack_dao_data(nar, Capacity::shannons(nc), Capacity::shannons(ns), Capacity::shannons(nu));
+                    Some((block.as_advanced_builder().dao(d).build(), what))
+                }
+            };
+            if let Some((bb, what)) = bad {
+                bump(&mut out.stats, "tampered_blocks_offered", 1);
+                if node.process(&bb).is_ok() {
+                    out.viol.push(json!({"what": format!("the node accepted a block with a {what}"), "detail": {"chain": ci, "seed": seed, "height": h, "cfg": cfg_json(&cfg)}}));
+                    break;
+                }
+            }
+        }
         if let Err(e) = node.process(&block) {
             out.viol.push(json!({"what": format!("harness: block {h} built from the node's own snapshot was rejected: {e}"), "detail": {"chain": ci, "seed": seed, "cfg": cfg_json(&cfg), "uncles": uncles.len(), "commits": committing.len(), "blocks": jblocks}}));
             break;
@@ -633,6 +677,17 @@ fn run_chain(seed: u64, ci: usize, thorough: bool) -> ChainOut {
         jblocks.push(json!({"h": h, "props": rec.props, "commits": rec.commits, "uncles": rec.uncles, "epoch": [rec.epoch.0, rec.epoch.1, rec.epoch.2]}));
         let _ = &next_epoch;
     }
+    // hypothesis of the Coq theorems: a transaction id is committed at most once on the chain
+    {
+        let mut seen = BTreeSet::new();
+        for b in &out.blocks {
+            for (id, _) in &b.commits {
+                if !seen.insert(*id) {
+                    out.viol.push(json!({"what": "a transaction id was committed twice on one chain", "detail": {"chain": ci, "seed": seed, "id": id}}));
+                }
+            }
+        }
+    }
     // coverage of the first-proposer rule: commits whose first proposer is not the latest proposer
     for c in 1..out.blocks.len() as u64 {
         for (id, _) in &out.blocks[c as usize].commits {
@@ -695,8 +750,8 @@ fn main() {
         std::process::exit(if bad.is_empty() { 0 } else { 1 });
     }
 
-    let n_chains = if thorough { 160 } else { 24 };
-    let shards = 8usize;
+    let n_chains = if thorough { 128 } else { 24 };
+    let shards = if thorough { 16usize } else { 8usize };
     let header = "From CKB Require Import Reward.Dao.";
     let mut files: Vec<CaseFile> = (0..shards).map(|i| {
         let mut cf = CaseFile::new(&out, &format!("cases_{:02}", i), header);
